@@ -214,13 +214,16 @@ func TestC09Range(t *testing.T) {
 
 	rapid.Check(t, prop(r, func(t *rapid.T) {
 		ts := filterType(t, 4, false)
-		n := rapid.IntRange(0, 10).Draw(t, "n")
+		n := rapid.IntRange(0, 12).Draw(t, "n")
+		if n < 4 && rapid.Bool().Draw(t, "more") {
+			n += 5
+		}
 
 		items := []rangeItem{}
 		seen := map[string]bool{}
 
 		for i := 0; i < n; i++ {
-			id := rapid.StringMatching(`[a-c]{1,2}`).Draw(t, "id")
+			id := rapid.StringMatching(`[a-e]{1,2}`).Draw(t, "id")
 			if seen[id] {
 				continue
 			}
@@ -238,9 +241,9 @@ func TestC09Range(t *testing.T) {
 		// ID list: empty, or a duplicate-free subset plus absent IDs.
 		ids := []string{}
 
-		if rapid.Bool().Draw(t, "useIDs") {
+		if rapid.IntRange(0, 2).Draw(t, "useIDs") == 0 {
 			for _, it := range items {
-				if rapid.Bool().Draw(t, "pick") {
+				if rapid.IntRange(0, 3).Draw(t, "pick") > 0 {
 					ids = append(ids, it.id)
 				}
 			}
@@ -257,7 +260,7 @@ func TestC09Range(t *testing.T) {
 		// Filter: nil or a tree relative to a member's values.
 		var tree *gen.FNode
 
-		if len(items) > 0 && rapid.Bool().Draw(t, "useFilter") {
+		if len(items) > 0 && rapid.IntRange(0, 2).Draw(t, "useFilter") == 0 {
 			ref := items[rapid.IntRange(0, len(items)-1).Draw(t, "ref")]
 			vals := map[string]any{"id": ref.id}
 
